@@ -307,6 +307,13 @@ class WSModel:
                 return None
             if self.is_disc(e):
                 return {d}
+            if isinstance(e, ast.Attribute) and e.attr == 'client_disconnected' and isinstance(e.value, ast.Name) and e.value.id != 'self' \
+                    and e.value.id not in func.params():
+                # receiver = self.<buffered receiver> ... receiver.client_disconnected (single-assignment local alias)
+                ds = local_defs(func, e.value.id)
+                if len(ds) == 1 and isinstance(ds[0], ast.Attribute) and ds[0].attr == self.buf_attr and isinstance(ds[0].value, ast.Name) \
+                        and ds[0].value.id == 'self':
+                    return {d}
             if self.is_state(e):
                 raise UnknownIdiom('%s: bare use of the state in a condition: %s' % (func.qual, short(e)))
             if isinstance(e, ast.Attribute) and isinstance(e.value, ast.Name) and e.value.id == 'self' and depth < 4:
